@@ -12,7 +12,8 @@ open WireModel
 let show_werr ((k, id) : werr) : string =
   "Err:" ^ Drv_name.werr_name k ^ ":" ^ (match werr_id (k, id) with Some i -> string_of_n i | None -> "-")
 
-let show_serr (e : serr) : string = match e with CounterTooLarge n -> "Err:CounterTooLarge:" ^ string_of_n n
+(* serr has one constructor with one argument: extraction erases it to its argument *)
+let show_serr (e : serr) : string = "Err:CounterTooLarge:" ^ string_of_n e
 
 let show_decoded (r : (werr, WireTypes.message) Prelude.res) : string =
   match r with
